@@ -573,6 +573,8 @@ static const char *const num_repl[] = {
     "4294967297", "2147483648", "inf", "1e999", "-0"
 };
 #define NNUMREPL 14
+#define NUMREPL_BIG_FIRST 7	/* "65536" .. "2147483648": level 1 only */
+#define NUMREPL_BIG_LAST 10
 
 /* YAML structural substitutions for a value (children are dropped) */
 static const char *const ysub[] = {
